@@ -62,7 +62,11 @@ META = {
 }
 
 DEFAULT_NOTE = ("Trusted base: the reference models / relation oracles in /verif/pv (listed in the evidence), numpy, pandas, "
-                "scipy, h5py, CPython. Evidence is 'held on the executions listed', never a proof.")
+                "scipy, h5py, CPython. Evidence is 'held on the executions listed', never a proof. The input classes a run must "
+                "have observed (else it is inconclusive) are listed in the evidence; they were widened over six rounds of "
+                "independently seeded changes (representations and dtypes, index layouts, aliasing and kept objects, corner "
+                "regions of the parameter space - DESIGN.md 9.4). Open known findings are matched by mechanism and, where it can "
+                "be stated, by symptom; findings keyed by an input class alone hide other changes inside that class (DESIGN.md 2.3).")
 
 
 def main():
